@@ -1,7 +1,7 @@
 (* Proofs/MemoProofs.v - lemmas about Model/Memo.v (C08): memoisation is unobservable, for every call sequence,
    every maxsize and every starting table that is consistent with the function. *)
 From Coq Require Import List Bool Arith NArith String Lia.
-From Verif Require Import Model.Memo Gen.C08MemoTable.
+From Verif Require Import Model.Memo Gen.C08MemoTable Gen.C08StateTable.
 Import ListNotations.
 
 Section MemoProofs.
@@ -113,3 +113,23 @@ Proof. vm_compute. reflexivity. Qed.
 
 Lemma memo_table_ok_forall : forall e, In e c08_memo_table -> entry_ok e = true.
 Proof. apply forallb_forall. exact memo_table_ok. Qed.
+
+(* no parameter of the current source takes its default from an object shared between runs; every container that
+   outlives a run is never written or is a keyed memo *)
+Lemma param_defaults_fresh : forallb default_ok c08_param_defaults = true.
+Proof. vm_compute. reflexivity. Qed.
+
+Lemma param_defaults_fresh_forall : forall d, In d c08_param_defaults -> pd_kind d <> DShared /\ pd_kind d <> DOther.
+Proof.
+  intros d H. pose proof (proj1 (forallb_forall _ _) param_defaults_fresh d H) as E.
+  unfold default_ok in E. destruct (pd_kind d); split; congruence.
+Qed.
+
+Lemma state_table_ok : forallb state_ok c08_state_table = true.
+Proof. vm_compute. reflexivity. Qed.
+
+Lemma state_table_ok_forall : forall e, In e c08_state_table -> se_mutated e = true -> se_keyed_memo e = true.
+Proof.
+  intros e H Hm. pose proof (proj1 (forallb_forall _ _) state_table_ok e H) as E.
+  unfold state_ok in E. rewrite Hm in E. exact E.
+Qed.
